@@ -837,6 +837,10 @@ clr_poss(bitint383_t *restrict cand, const bitint383_t *poss)
 			/* reset ci */
 			ci = 0UL;
 			prev = 0;
+		} else if (UNLIKELY(prev && !ci)) {
+			/* ran out of candidates on the way to PREV already,
+			 * don't start over */
+			continue;
 		}
 		/* just shave bits off of cand */
 		for (int p = pos - prev;
